@@ -1,29 +1,5 @@
 #!/bin/bash
-# Re-run every stored seeded change against the current machinery, on a scratch copy of /repo
-# (VERIF_REPO), and refresh seeded/<id>/meta.json "check_results".
+# Re-run every stored seeded change against the current machinery, on scratch copies of /repo
+# (VERIF_REPO), and refresh seeded/<id>/meta.json "check_results".  About 3-5 minutes per change.
 cd /verif
-for d in seeded/C*/; do
-  id=$(basename $d)
-  S=$(mktemp -d /tmp/seedrun.XXXX)
-  mkdir -p $S/repo && cp -r /repo/src /repo/Cargo.toml /repo/Cargo.lock $S/repo/
-  (cd $S/repo && patch -p1 -s < /verif/$d/patch.diff) || { echo "$id: patch failed"; rm -rf $S; continue; }
-  python3 - "$id" "$S/repo" <<'PY'
-import json, subprocess, sys, os
-sid, repo = sys.argv[1], sys.argv[2]
-mp = f"/verif/seeded/{sid}/meta.json"
-meta = json.load(open(mp))
-res = {}
-for n in range(1, 21):
-    p = f"C{n:02d}"
-    r = subprocess.run(["/verif/bin/check", p], capture_output=True, text=True, env=dict(os.environ, VERIF_REPO=repo))
-    last = [l for l in r.stdout.split("\n") if l.startswith(("OK", "VIOLATION", "UNDECIDED"))]
-    last = last[-1] if last else ""
-    res[p] = "VIOLATION" if last.startswith("VIOLATION") else ("OK" if last.startswith("OK") else "UNDECIDED")
-meta["check_results"] = res
-meta["detected_by_target_check"] = res.get(meta["breaks_property"]) == "VIOLATION"
-meta["flagged_by"] = sorted(p for p, v in res.items() if v == "VIOLATION")
-json.dump(meta, open(mp, "w"), indent=1)
-print(sid, "target", meta["breaks_property"], "->", res.get(meta["breaks_property"]), "flagged_by", meta["flagged_by"])
-PY
-  rm -rf $S
-done
+exec tools/rerun_seeded.sh $(ls -d seeded/C*/ | xargs -n1 basename)
